@@ -127,6 +127,10 @@ class SymNd(_np.ndarray):
     def astype(self, dtype, *a, **k):
         if self.dtype == object and _has_sym(self) and _floaty(dtype):
             # the data ARE float64 on the real side: astype copies unless told not to
+            if str(_np.dtype(dtype)) != 'float64':
+                out = _apply_cast(self, dtype).view(SymNd)
+                out._cast = _np.dtype(dtype)
+                return out
             if k.get('copy') is False:
                 return self
             return self.copy()
@@ -197,7 +201,10 @@ def _apply_cast(val, dtype):
 
     def one(x):
         if isinstance(x, core._SymNum):
-            return SymReal(f(core.real_term(x)))
+            t = core.real_term(x)
+            if z3.is_app(t) and t.num_args() == 1 and t.decl().eq(f):
+                return x            # a conversion to one element type is idempotent
+            return SymReal(f(t))
         return x
     if isinstance(val, _np.ndarray):
         if val.dtype != object:
@@ -360,6 +367,11 @@ def count_nonzero(a, *args, **k):
 def empty(shape, dtype=None, *a, **k):
     if dtype is object or dtype == object or dtype in (str, 'U', 'S'):
         return _np.empty(shape, dtype=dtype)
+    try:
+        if dtype is not None and _np.dtype(dtype).kind in 'US':
+            return _np.empty(shape, dtype=dtype)        # fixed-width text: the real thing (it truncates on assignment)
+    except TypeError:
+        pass
     arr = _np.empty(shape, dtype=object)
     flat = arr.reshape(-1)
     for i in range(flat.size):
@@ -734,3 +746,13 @@ class NpFacade:
 
 
 facade = NpFacade()
+
+
+class TypedZeros(NpFacade):
+    """The facade with zeros() of ANY element type backed by proxies (`_cast` names the type): for the one module whose
+    output array is the subject (whip with an integer --dtype).  Everything else as in the facade."""
+
+    def __getattr__(self, name):
+        if name == 'zeros':
+            return lambda shape, dtype=None, *a, **k: _filled(shape, 0.0, dtype)
+        return NpFacade.__getattr__(self, name)
